@@ -268,6 +268,13 @@ def make_crop_and_sow(f, d, case, combos, fn_args, cs, constants,
         crop.is_ready_to_reap()
         if oldfn:
             crop = xyz.Crop(fn=f, name=NAME, parent_dir=d, **kws)
+    if constants and core.pick([kind, case["mode"], case["req"], case["n"],
+                                "constform"], 3) == 0:
+        # (given as pairs from a one-shot iterator, as combo_runner accepts)
+        constants = zip(list(constants), list(constants.values()))
+    elif constants and core.pick([kind, case["mode"], case["req"], case["n"],
+                                  "constform"], 3) == 1:
+        constants = tuple(constants.items())
     if kind == "grid":
         crop.sow_combos(dcombos, constants=constants, verbosity=0, **skw)
     elif kind == "mix":
